@@ -55,6 +55,9 @@ Definition set_dvars (v : list string) (s : pst) : pst :=
 
 Definition MP := @M pst.
 
+(* self._instructions read as a value (its truthiness: anything pending?) *)
+Definition instructions (s : pst) : list line := instr_front s ++ instr_back s.
+
 (* deque operations on _instructions *)
 Definition instr_append (l : line) : MP unit := modify (fun s => set_instr_back (instr_back s ++ [l]) s).
 Definition instr_appendleft (l : line) : MP unit := modify (fun s => set_instr_front (l :: instr_front s) s).
